@@ -107,5 +107,7 @@ RULES = [
     ("P10", pool2.P10_aspects("sites", "pure-waiter", "keeps"), ["default"]),
     ("P15", pool2.P15, ["default"]),
     ("P16b", pool2.no_try_lock, ["default"]),
+    # which idle entry is handed out (newest open unexpired one): the idle-pop decision table
+    ("P5", pool.P5, ["default"]),
     ("C04.1", C04_1, ["default"]),
 ]
